@@ -80,13 +80,13 @@ def absolute_width(box, context, cb_x, cb_y, cb_width, cb_height):
                 box.margin_left = 0 if ltr else width_for_margins
                 box.margin_right = width_for_margins if ltr else 0
         elif box.margin_left == 'auto':
-            box.margin_left = width_for_margins
+            box.margin_left = width_for_margins - box.margin_right
         elif box.margin_right == 'auto':
-            box.margin_right = width_for_margins
+            box.margin_right = width_for_margins - box.margin_left
         elif ltr:
-            box.margin_right = width_for_margins
+            box.margin_right = width_for_margins - box.margin_left
         else:
-            box.margin_left = width_for_margins
+            box.margin_left = width_for_margins - box.margin_right
         translate_x = box.left + default_translate_x
     else:
         if box.margin_left == 'auto':
@@ -142,11 +142,11 @@ def absolute_height(box, context, cb_x, cb_y, cb_width, cb_height):
         if box.margin_top == box.margin_bottom == 'auto':
             box.margin_top = box.margin_bottom = height_for_margins / 2
         elif box.margin_top == 'auto':
-            box.margin_top = height_for_margins
+            box.margin_top = height_for_margins - box.margin_bottom
         elif box.margin_bottom == 'auto':
-            box.margin_bottom = height_for_margins
+            box.margin_bottom = height_for_margins - box.margin_top
         else:
-            box.margin_bottom = height_for_margins
+            box.margin_bottom = height_for_margins - box.margin_top
         translate_y = box.top + default_translate_y
     else:
         if box.margin_top == 'auto':
@@ -303,9 +303,9 @@ def absolute_replaced(context, box, cb_x, cb_y, cb_width, cb_height):
                 box.margin_left = 0 if ltr else remaining
                 box.margin_right = remaining if ltr else 0
         elif box.margin_left == 'auto':
-            box.margin_left = remaining
+            box.margin_left = remaining - box.margin_right
         else:
-            box.margin_right = remaining
+            box.margin_right = remaining - box.margin_left
     else:
         # Over-constrained
         if ltr:
@@ -331,9 +331,9 @@ def absolute_replaced(context, box, cb_x, cb_y, cb_width, cb_height):
         if box.margin_top == box.margin_bottom == 'auto':
             box.margin_top = box.margin_bottom = remaining / 2
         elif box.margin_top == 'auto':
-            box.margin_top = remaining
+            box.margin_top = remaining - box.margin_bottom
         else:
-            box.margin_bottom = remaining
+            box.margin_bottom = remaining - box.margin_top
     else:
         # Over-constrained
         box.bottom = cb_height - (box.margin_height() + box.top)
